@@ -927,6 +927,7 @@ impl<'cmd> Parser<'cmd> {
             .unwrap_or_default()
             && short_arg
                 .clone()
+                .skip(skip)
                 .any(|c| !c.map(|c| self.cmd.contains_short(c)).unwrap_or_default())
         {
             debug!("Parser::parse_short_args: positional at {pos_counter} allows hyphens");
